@@ -439,6 +439,67 @@ def lookupNSAddr (locals : List IP) (cached : Option (List IP)) (sub : Option (L
       let l := searchAddrs locals ans
       if l.isEmpty then none else some l
 
+/-! ### `Resolver.processDelegation` over a history of referrals -/
+
+/-- association list with replacement (the caches are maps keyed by the lower-cased name). -/
+def setKey {β : Type} (l : List (Str × β)) (k : Str) (v : β) : List (Str × β) :=
+  l.filter (fun p => !(p.1 == k)) ++ [(k, v)]
+
+def getKey {β : Type} (l : List (Str × β)) (k : Str) : Option β :=
+  (l.find? fun p => p.1 == k).map (·.2)
+
+/-- What the resolver has stored: delegations (zone → server addresses) and
+the IPv4 name-server address cache (host → addresses). -/
+structure DelegState where
+  delegs : List (Str × List IP) := []
+  glue4 : List (Str × List IP) := []
+deriving Repr
+
+/-- One referral as `processDelegation` meets it: received from the servers of
+`authZone` at `level`, for `qname`/`qclass`; `subs` = what the sub-pipeline
+answers when a name server's own address is looked up (`none` = it fails). -/
+structure Referral where
+  authZone : Str
+  level : Nat
+  qname : Str
+  qclass : Nat
+  ns : List AuthRR
+  extras : List Extra
+  subs : List (Str × Option (List AddrRR))
+
+def appendUniqueAll (srv : List IP) (l : List IP) : List IP :=
+  l.foldl (fun acc a => if acc.contains a then acc else acc ++ [a]) srv
+
+/-- the `lookupV4Nss` loop body for one name server without accepted glue. -/
+def lookupHost (locals : List IP) (subs : List (Str × Option (List AddrRR)))
+    (acc : List (Str × List IP) × List IP) (h : Str) : List (Str × List IP) × List IP :=
+  match lookupNSAddr locals (getKey acc.1 h) ((getKey subs h).getD none) with
+  | none => acc
+  | some l => (setKey acc.1 h l, appendUniqueAll acc.2 l)
+
+/-- `processDelegation` for a CD=1 request on a resolver without DNSSEC and
+IPv6, QNAME minimisation off, at recursion depth 1 (it returns right after
+storing): the referral rule, the parent-detection level test, the
+cached-delegation hit, `checkGlueRR` (whose accepted glue REPLACES the cache
+entries of those hosts), `lookupV4Nss` for the hosts without accepted glue
+(glue cache first, then the host's own lookup), and the store. The string is
+the error the real function returns. -/
+def delegStep (locals : List IP) (st : DelegState) (rf : Referral) : DelegState × String :=
+  let info := extractDelegationInfo rf.ns
+  match info.ns with
+  | none => (st, "nons")
+  | some (owner, _) =>
+    if !(validReferral info rf.authZone rf.qname rf.qclass) then (st, "parent")
+    else if rf.level > (labelsOf owner).length then (st, "parent")
+    else if (getKey st.delegs (lower owner)).isSome then (st, "maxdepth")
+    else
+      let g := checkGlue locals false rf.level rf.qname info.hosts rf.extras
+      let found := dedup (g.v4.map (·.1))
+      let glue1 := found.foldl (fun gl h => setKey gl h ((glueCached g.v4 h).getD [])) st.glue4
+      let r := (info.hosts.filter fun h => !(found.contains h)).foldl (lookupHost locals rf.subs) (glue1, g.servers)
+      if r.2.isEmpty then ({ st with glue4 := r.1 }, "noauth")
+      else ({ delegs := setKey st.delegs (lower owner) r.2, glue4 := r.1 }, "maxdepth")
+
 /-! ### `Cache.additionalAnswer` (the alias chase) -/
 
 /-- A record as the chase sees it: owner, type and, for a CNAME, its target. -/
